@@ -896,7 +896,12 @@ def hy_compile(
     if not get_expr:
         result += result.expr_as_stmt()
 
-    result.stmts = list(map(ResolveOuterVars().visit, result.stmts))
+    result.stmts = [
+        # `visit` returns a list for a `nonlocal` at the top level.
+        s
+        for stmt in result.stmts
+        for s in [ResolveOuterVars().visit(stmt)]
+        for s in (s if isinstance(s, list) else [s])]
 
     body = []
 
